@@ -713,7 +713,7 @@ func readerCases(r *rand.Rand, thorough bool) {
 }
 
 // emitTraces: op `rtrace` — the RL.* hook events of every fetcher goroutine ((*reader).run) of every scenario, one line
-// per fetcher: the oracle replays them through the loop LTS of Model/ReaderRun.lean (`rstep`), which must agree with
+// per fetcher: the oracle replays them through the loop LTS of Model/ReaderLoopLTS.lean (`rstep`), which must agree with
 // the recorded attempt / errcount / offset / conn offset at every step, and checks the `Good` hypotheses of the
 // loop theorems on the recorded fetch rounds.
 func emitTraces(scs []*rdScenario, events []kafka.VerifEvent) {
